@@ -430,7 +430,8 @@ def r3(R):
             "the compacted peak count of the current frame is not kept")
     bm = [c for c in ast.walk(fn) if isinstance(c, ast.Call) and pyfacts.dotted(c.func) == "cImageD11.blob_moments"]
     opk = [c for c in ast.walk(fn) if isinstance(c, ast.Call) and pyfacts.dotted(c.func) == "self.outputpeaks"]
-    R.check(len(bm) == 1 and len(opk) == 1 and bm[0].lineno < opk[0].lineno and src(bm[0].args[0]) == src(opk[0].args[0]) == "self.lastres[:self.lastnp]"
+    _rs = lambda e_: pyfacts.resolved_src(fn, e_, 2, keep=("self",)).replace(" ", "")      # 'closed = self.lastres[:self.lastnp]' named once
+    R.check(len(bm) == 1 and len(opk) == 1 and bm[0].lineno < opk[0].lineno and _rs(bm[0].args[0]) == _rs(opk[0].args[0]) == "self.lastres[:self.lastnp]"
             and bm[0].lineno > ov[0].lineno, "C12.R3", LI, fn.lineno, "labelimage.mergelast", "closed peaks: blob_moments then outputpeaks on lastres[:lastnp], after the merge",
             "peaks of the previous frame are written before they are merged/finished")
     fin = m.ifunc("labelimage.finalise", keep=("outputpeaks",))
